@@ -113,9 +113,16 @@ def make_class(eng, node, env):
     methods, attrs = {}, {}
     for st in node.body:
         if isinstance(st, ast.FunctionDef):
+            def _default(d):
+                # a default value the engine cannot evaluate (an external name without assumed contract) is a placeholder: using it
+                # is out of reach, not having it is not
+                try:
+                    return eng.eval(d, env)
+                except EngineError:
+                    return Obj('unevaluated-default')
             clo = Closure(st, env, node.name + '.' + st.name,
-                          defaults=[eng.eval(d, env) for d in st.args.defaults],
-                          kwdefaults={a.arg: eng.eval(d, env) for a, d in zip(st.args.kwonlyargs, st.args.kw_defaults)
+                          defaults=[_default(d) for d in st.args.defaults],
+                          kwdefaults={a.arg: _default(d) for a, d in zip(st.args.kwonlyargs, st.args.kw_defaults)
                                       if d is not None})
             for d in st.decorator_list:
                 if isinstance(d, ast.Name) and d.id == 'property':
